@@ -189,6 +189,38 @@ def load_findings():
 # worker
 
 
+def resolve_anchor(spec):
+    """'pkg.module:Class.attr' -> function object (properties, classmethods, wrappers unwrapped)."""
+    module_name, _, qual = spec.partition(":")
+    obj = importlib.import_module(module_name)
+    for part in qual.split("."):
+        holder = obj
+        obj = holder.__dict__[part] if isinstance(holder, type) and part in holder.__dict__ else getattr(holder, part)
+    if isinstance(obj, property):
+        obj = obj.fget
+    if isinstance(obj, (classmethod, staticmethod)):
+        obj = obj.__func__
+    obj = getattr(obj, "__func__", obj)
+    while hasattr(obj, "__wrapped__"):
+        obj = obj.__wrapped__
+    return obj
+
+
+def start_reach(mod):
+    """First-hit reach counters (sys.monitoring PY_START + DISABLE) on the functions a check anchors."""
+    anchors = getattr(mod, "ANCHORS", None)
+    if not anchors:
+        return None
+    from vlib import monitors  # pylint: disable=import-outside-toplevel
+
+    functions = {}
+    for spec in anchors:
+        functions[spec.split(":", 1)[1]] = resolve_anchor(spec)
+    counter = monitors.ReachCounter(functions)
+    counter.start()
+    return counter
+
+
 def worker_main(args):
     faulthandler.enable()
     sys.setrecursionlimit(1000)
@@ -196,8 +228,10 @@ def worker_main(args):
     plan = mod.plan(args.tier)
     ctx = Ctx(args.prop, args.tier, args.seed, args.shard, args.nshards, plan)
     status = "ok"
+    reach = None
     try:
         bootstrap.import_statham()
+        reach = start_reach(mod)
         mod.run_shard(ctx)
     except bootstrap.Inconclusive as exc:
         ctx.inconclusive_reason(str(exc))
@@ -208,6 +242,13 @@ def worker_main(args):
         )
     finally:
         ctx.cleanup()
+        if reach is not None:
+            try:
+                reach.stop()
+                for label in reach.names.values():
+                    ctx.count("reach." + label, 1 if label in reach.hit else 0)
+            except Exception:  # pylint: disable=broad-except
+                pass
     rep = ctx.report()
     rep["status"] = status
     with open(args.out + ".keys", "wb") as handle:
@@ -330,7 +371,10 @@ def driver_main(args):
 def conclude(mod, prop, tier, seed, merged, distinct, wall, replaying=False):
     findings = load_findings()
     counters = merged["counters"]
-    for name in getattr(mod, "REQUIRED_COUNTERS", []):
+    required = list(getattr(mod, "REQUIRED_COUNTERS", [])) + [
+        "reach." + spec.split(":", 1)[1] for spec in getattr(mod, "ANCHORS", [])
+    ]
+    for name in required:
         if not replaying and counters.get(name, 0) <= 0:
             merged["inconclusive"].append(
                 f"required observation '{name}' was made 0 times"
@@ -377,7 +421,9 @@ def conclude(mod, prop, tier, seed, merged, distinct, wall, replaying=False):
                 "exhaustive": False,
                 "exhaustive_subspaces": getattr(mod, "EXHAUSTIVE_SUBSPACES", {}).get(tier, []),
                 "observed": dict(sorted(counters.items())),
-                "required_observations": getattr(mod, "REQUIRED_COUNTERS", []),
+                "required_observations": required,
+                "anchor_functions_reached": sorted(
+                    name[6:] for name, val in counters.items() if name.startswith("reach.") and val > 0),
                 "known_findings_seen": known,
                 "inconclusive_reasons": merged["inconclusive"],
                 "technique": getattr(mod, "TECHNIQUE", ""),
